@@ -245,18 +245,30 @@ class MetadataManager:
                 metadata_path = f"{self.metadata_path}/{metadata_file}"
                 self._write_metadata_file(metadata_path, new_metadata)
 
-                # PHASE 3.5: Fencing - re-validate lock ownership immediately
-                # before the commit point. A holder whose lease was broken (e.g.
-                # after a long pause) must not flip the hint.
-                if not self.lock_provider.is_held():
-                    raise ConcurrentModificationException(
-                        "Lost distributed lock before commit point; retrying"
-                    )
+                try:
+                    # PHASE 3.5: Fencing - re-validate lock ownership immediately
+                    # before the commit point. A holder whose lease was broken (e.g.
+                    # after a long pause) must not flip the hint.
+                    if not self.lock_provider.is_held():
+                        raise ConcurrentModificationException(
+                            "Lost distributed lock before commit point; retrying"
+                        )
 
-                # PHASE 4: Atomically make new version visible.
-                # This is the commit point - after this, the new metadata is visible.
-                # If we crash before this, the new metadata file is orphaned but table is consistent.
-                self._write_hint_at_commit_point(metadata_file, hint_etag)
+                    # PHASE 4: Atomically make new version visible.
+                    # This is the commit point - after this, the new metadata is visible.
+                    # If we crash before this, the new metadata file is orphaned but table is consistent.
+                    self._write_hint_at_commit_point(metadata_file, hint_etag)
+                except AmbiguousCommitError:
+                    # The hint may name our file: it must stay.
+                    raise
+                except Exception:
+                    # Known NOT committed (lost fence, CAS conflict, clean local
+                    # failure). The file just written can never become current,
+                    # but it carries the next version number - if the hint is
+                    # ever lost, recovery by scanning would pick it up as the
+                    # "latest" version and surface a commit that never happened.
+                    self._discard_uncommitted_metadata(metadata_path)
+                    raise
 
                 # Success - update in-memory version
                 self.current_version = next_version
@@ -345,6 +357,13 @@ class MetadataManager:
             raise AmbiguousCommitError(
                 f"Version hint write failed ambiguously: {e}"
             ) from e
+
+    def _discard_uncommitted_metadata(self, metadata_path: str) -> None:
+        """Best-effort removal of a metadata file whose commit is known to have failed."""
+        try:
+            self.storage.delete_file(metadata_path)
+        except Exception as e:
+            logger.warning(f"Could not remove uncommitted metadata file {metadata_path}: {e}")
 
     def _release_lock_safely(self) -> None:
         """Release the distributed lock without ever raising."""
